@@ -78,6 +78,9 @@ func (r *Report) check(cond bool, rule, key, pos, okDetail, failDetail string) b
 
 // floor asserts an instance count confirmed by hand on the reference tree.
 func (r *Report) floor(what string, got, want int) {
+	if os.Getenv("VERIF_FLOORS") != "" {
+		fmt.Fprintf(os.Stderr, "FLOOR %s %s got=%d floor=%d\n", r.Prop, what, got, want)
+	}
 	r.check(got >= want, "instance-floor", "floor/"+what, "", fmt.Sprintf("%d instances of %s (floor %d)", got, what, want),
 		fmt.Sprintf("only %d instances of %s, expected at least %d: the rule would pass vacuously", got, what, want))
 }
